@@ -15,6 +15,10 @@ ObjOk(e, want, got) ==
   /\ got.id = want.id /\ got.name = want.name /\ got.transform = want.transform
   /\ IF want.type = TypeMarker
      THEN got.data.k = "marker" /\ got.data.kind = e.markerkinds[want.data[1]] /\ got.data.w = <<want.data[2], want.data[3]>>
+     ELSE IF want.type = TypeBg
+     THEN /\ got.data.k = "bg" /\ got.data.collision = e.collisionkinds[want.data[3] + 1]
+          /\ got.data.flags = <<want.data[7], want.data[8], want.data[9]>>
+          /\ got.data.w = <<want.data[1], want.data[2], want.data[4], want.data[5], want.data[6], want.data[10]>>
      ELSE IF want.type = TypePop
      THEN got.data.k = "pop" /\ got.data.kind = e.popkinds[want.data[1]] /\ got.data.w = <<want.data[4]>> /\ got.data.index = want.data[5]
      ELSE IF want.type = TypeEnv
